@@ -159,6 +159,12 @@ func ClassifyErr(info *types.Info, body *ast.BlockStmt, call *ast.CallExpr) ErrU
 						}
 						return ErrUse{Kind: "if-other", Err: e, If: is}
 					}
+					// `if e == nil { success...; return }`: the success path is the body, the failure path goes on
+					if is, ok := blk.List[i+1].(*ast.IfStmt); ok && is.Init == nil && is.Else == nil && eqNil(info, is.Cond) == e && len(is.Body.List) > 0 {
+						if _, isRet := is.Body.List[len(is.Body.List)-1].(*ast.ReturnStmt); isRet {
+							return ErrUse{Kind: "if-nil-success", Err: e, If: is}
+						}
+					}
 					if is, ok := blk.List[i+1].(*ast.IfStmt); ok && is.Init == nil {
 						if acc := eqNil(info, is.Cond); acc != nil && acc != e && len(is.Body.List) == 1 {
 							if as, ok := is.Body.List[0].(*ast.AssignStmt); ok && as.Tok == token.ASSIGN && len(as.Lhs) == 1 && len(as.Rhs) == 1 &&
